@@ -49,6 +49,7 @@ LIB: dict[str, dict] = {
     "TProbeEcho": dict(kind=["probe"], params=[("val", None)], inT="TData", outT="TData", declared=[], beh=["echo"]),
     "TFailProbe": dict(kind=["probe"], params=[], inT="TData", outT="TData", declared=[], beh=["fail", "VerifProcError"]),
     "TSink": dict(kind=["dataSink"], params=[("path", None)], inT="TData", outT="TData", declared=[], beh=["term", "sink"]),
+    "TSinkKw": dict(kind=["dataSink"], params=[("path", None), ("tag", None)], inT="TData", outT="TData", declared=[], beh=["term", "sinkkw"]),
     "TPayloadSink": dict(kind=["payloadSink"], params=[("path", None)], inT="TData", outT="TData", declared=[], beh=["term", "psink"]),
 }
 SLICEABLE_OPS = ["TOp0", "TOp1", "TOp1Def", "TOp2", "TOpW", "TOpW2", "TFail"]
@@ -161,7 +162,7 @@ def gen_pipeline(rnd, max_len=6, p_misfit=0.15, sinks_path: str | None = None, a
         if (eff == "NoDataType") == fit or not fit:
             cands += ["TSource", "TSourceDef", "TCollSource", "TPayloadSource"] if (eff == "NoDataType") == fit else []
         if (eff == "TData") == fit:
-            cands += ["TOp0", "TOp1", "TOp1Def", "TOp2", "TOpW", "TOpW2", "TProbe", "TProbeP", "TProbeEcho", "TSink", "TPayloadSink", "TOpToOther",
+            cands += ["TOp0", "TOp1", "TOp1Def", "TOp2", "TOpW", "TOpW2", "TProbe", "TProbeP", "TProbeEcho", "TSink", "TSinkKw", "TPayloadSink", "TOpToOther",
                       "TOp1DefSub", "TOp2Sub", "TOp1Sub", "TOpKw", "TOpKwReq"]
             if fit and rnd.random() < 0.25:
                 cands += ["TOpUndeclared", "TFail", "TFailProbe"]
